@@ -99,7 +99,8 @@ func (i *interpreter) LoadBuiltins(filename string, contents []byte, statements 
 	case "config_rules.build_defs":
 		defer setNativeCode(s, "select", selectFunc)
 	}
-	defer i.scope.SetAll(s.Freeze(), true)
+	// N.B. the scope must be frozen once the file has been interpreted, not when this defer statement runs.
+	defer func() { i.scope.SetAll(s.Freeze(), true) }()
 	if statements != nil {
 		_, err := i.interpretStatements(s, statements)
 		return err
